@@ -253,6 +253,19 @@ def h_loader(n):
     return fn
 
 
+def setup_symbolic_c15():
+    from props import c15
+    c15.setup_symbolic()
+
+
+_orig_setup = setup_symbolic
+
+
+def setup_symbolic():  # noqa: F811 - extends the shim set with the byte-stream model of C15
+    _orig_setup()
+    setup_symbolic_c15()
+
+
 def instances(tier, seed):
     q = tier == "quick"
     F = ["src.multimap_resolver:MultimapResolver." + f for f in ("resolve", "select_best_assignment", "select_best_inconsistent",
@@ -270,4 +283,14 @@ def instances(tier, seed):
     for n in ((1, 2) if q else (1, 2, 3)):
         out.append(Instance("loader[n=%d]" % n, h_loader(n), ["src.dataset_processor:ReadAssignmentLoader.get_next"],
                             "%d saved alignments of one read, arbitrary verdict list" % n, weight=5 ** n))
+    # the two resolution inputs agree: compact record read from the intermediate file (default mode) ==
+    # compact record built in memory (--high_memory); harness shared with C15, spliced reads
+    from props import c15
+    for sh in ([(2, 1, 0, 0, False)] if q else [(2, 1, 0, 0, False), (3, 2, 1, 0, False)]):
+        for variant in ((0,) if q else (0, 1, 2)):
+            out.append(Instance("compact_record[exons=%d,matches=%d,strings=%d]" % (sh[0], sh[1], variant),
+                                c15.h_assignment(*(sh + (variant, seed % 8))),
+                                ["src.isoform_assignment:BasicReadAssignment.deserialize_from_read_assignment",
+                                 "src.isoform_assignment:BasicReadAssignment.__init__", "src.isoform_assignment:ReadAssignment.serialize"],
+                                "spliced read record, all numeric fields symbolic", weight=200, budget_s=1200))
     return out
